@@ -43,4 +43,36 @@ MUTANTS = [
      "    def depends_on_result_in_sandbox(self) -> bool:\n        return True\n\n"
      "    def _exit_identifier_printer(self) -> ProcOutputFile:\n        return ProcOutputFile.STDOUT",
      '_ResultReporterForPreserveAndPrintSandboxDir.report : ensures['),
+    ('c09-rest-off-by-one', 'C09', 'exactly_lib/symbol/symbol_syntax.py',
+     "rest = s[pos_after_symbol_name + 2:]", "rest = s[pos_after_symbol_name + 1:]",
+     '_find_symbol_reference : ensures[conservation]'),
+    ('c09-split-drops-fragments', 'C09', 'exactly_lib/symbol/symbol_syntax.py',
+     "ret_val.extend(fragments)", "ret_val = fragments",
+     'symbol_syntax:split : loop#0 invariant[preserved]'),
+    ('c09-find-no-progress', 'C09', 'exactly_lib/symbol/symbol_syntax.py',
+     "sym_ref_pos = s.find(SYMBOL_REFERENCE_BEGIN, pos_after_symbol_name)",
+     "sym_ref_pos = s.find(SYMBOL_REFERENCE_BEGIN, sym_ref_pos)",
+     '_find_symbol_reference : loop#0 variant[decreases]'),
+    ('c09-candidate-skipped', 'C09', 'exactly_lib/symbol/symbol_syntax.py',
+     "sym_ref_pos = s.find(SYMBOL_REFERENCE_BEGIN, pos_after_symbol_name)",
+     "sym_ref_pos = s.find(SYMBOL_REFERENCE_BEGIN, pos_after_symbol_name + 1)",
+     'bounded[symbol_syntax.split]'),
+    ('c09-substitution-inside-hard-quotes', 'C09', 'exactly_lib/impls/types/string_/parse_string.py',
+     "def parse_fragments_from_token(token: Token) -> List[symbol_syntax.Fragment]:\n"
+     "    if token.is_quoted and token.is_hard_quote_type:",
+     "def parse_fragments_from_token(token: Token) -> List[symbol_syntax.Fragment]:\n    if False:",
+     'parse_fragments_from_token : ensures[fragments-of-the-token]'),
+    ('c09-here-doc-marker-prefix-match', 'C09', 'exactly_lib/impls/types/string_/parse_rich_string.py',
+     "if line == marker:", "if line.startswith(marker):",
+     '_parse_contents : ensures['),
+    ('c09-quoted-here-doc-marker', 'C09', 'exactly_lib/impls/types/string_/parse_rich_string.py',
+     "        if first_token.is_quoted:\n"
+     "            return _raise_not_a_here_doc_exception(token_parser.remaining_part_of_current_line)\n", "",
+     'HereDocParser.parse_from_token_parser : ensures[a-quoted-token-is-not-a-here-document]'),
+    ('c09-list-runs-onto-next-line', 'C09', 'exactly_lib/impls/types/list_/generic_parser.py',
+     "while not token_parser.is_at_eol:", "while token_parser.has_current_line:",
+     'an element is parsed only when the rest of the current line is not blank'),
+    ('c09-whitespace-split-off', 'C09', 'exactly_lib/section_document/element_parsers/token_stream.py',
+     "lexer.whitespace_split = True", "lexer.whitespace_split = False",
+     '_new_lexer : ensures[split-on-white-space-only]'),
 ]
